@@ -687,6 +687,16 @@ def gen_heuristics(ctx):
         for suf in ["", "/a.html", " ", "\t", "?q=1", "\n", "<"]:
             out.append(("heur", s + suf, {}, True))
             out.append(("heur", (s + suf).encode(), {}, True))
+    # URL-shaped text a URL *library* would choke on or read differently from the prefix test (brackets of IPv6 literals, userinfo,
+    # ports, percent escapes, NFKC-unstable host characters, control characters): the heuristic only warns, whatever the text is
+    for s in ["http://[", "https://[::1", "http://[::1]", "http://example.com]/index", "http://[not-an-address]/", "http://a\u2100b/", "http://a@b:c@d/",
+              "http://x:99999999/", "http://x:-1/", "https://%zz/", "http://\x00/", "http://a\tb/", "http://\u3002/", "http://xn--/", "http:[", "https:]", "http://[[",
+              "http://]", "http://[::1]:x/", "http://[v1.x]/", "http://a\uff0fb", "HTTP://[", "http://\udfff/"]:
+        out.append(("heur-url", s, {}, True))
+        try:
+            out.append(("heur-url", s.encode("utf-8"), {}, True))
+        except UnicodeEncodeError:
+            pass
     for n in (250, 251, 252, 255, 256, 257, 300):
         for e in (".html", ".txt"):
             m = "a" * (n - len(e)) + e
@@ -695,7 +705,7 @@ def gen_heuristics(ctx):
             out.append(("heur-len", "\u00e9" * (n - len(e)) + e, {}, True))       # 256 code points but more bytes
             out.append(("heur-len", ("\u00e9" * ((n - len(e)) // 2) + e).encode(), {}, True))
         out.append(("heur-len", "http://" + "a" * (n - 7), {}, True))
-    alpha = list("ab.:/ ?*#&;>$|\\hHtTmMlLxX") + ["  ", "//", ".html", ".txt", ".xml", "http:", "https:", "\u00e9", "\udfff", "\x00", ".HTM"]
+    alpha = list("ab.:/ ?*#&;>$|\\hHtTmMlLxX[]@%") + ["  ", "//", ".html", ".txt", ".xml", "http:", "https:", "\u00e9", "\udfff", "\x00", ".HTM"]
     for _ in range(ctx.n(5000, 60000)):
         m = "".join(r.choice(alpha) for _ in range(r.randint(1, 8))) + r.choice(exts + ["", "", ""])
         if r.random() < 0.5:
